@@ -74,13 +74,21 @@ def extract_witness(trace):
         if m and "data" in v:
             w["b"].setdefault(int(m.group(1)), {})[m.group(2)] = _num(v["data"])
             continue
+        m = re.match(r"wit_b\[(\d+)l?\]\.w\[(\d+)l?\]$", lhs)
+        if m and "data" in v:
+            b = w["b"].setdefault(int(m.group(1)), {})
+            ws = b.get("w") or [0, 0, 0, 0]
+            ws = list(ws) + [0] * (4 - len(ws))
+            ws[int(m.group(2))] = _num(v["data"])
+            b["w"] = ws
+            continue
         m = re.match(r"wit_([sm])\[(\d+)l?\]$", lhs)
         if m and "data" in v:
             w[m.group(1)][int(m.group(2))] = _num(v["data"])
             continue
         if lhs == "wit_alias" and "data" in v:
             w["alias"] = _num(v["data"])
-        if lhs in ("g_k", "g_i", "g_j", "g_k2", "g_i2") and "data" in v:
+        if lhs in ("g_k", "g_i", "g_j", "g_k2", "g_i2", "q_case") and "data" in v:
             w["ghost"][lhs] = _num(v["data"])
     return w
 
